@@ -69,6 +69,13 @@ def lin(n, subst=None, depth=0):
         return a.scale(-1) if a is not None else None
     if k in ("DeclRefExpr", "MemberExpr", "ArraySubscriptExpr"):
         txt = n.text()
+        if subst and k == "ArraySubscriptExpr" and txt not in subst:
+            # element of an array reached through a local alias assigned once (const int* nsip = msa->nsip): name it by the
+            # aliased path, so that nsip[a] and msa->nsip[a] are the same atom
+            b = n.kids[0].strip(casts=True)
+            al = subst.get(b.text()) if b.k == "DeclRefExpr" else None
+            if al is not None and al.c == 0 and len(al.t) == 1 and list(al.t.values()) == [1]:
+                txt = "%s[%s]" % (next(iter(al.t)), n.kids[1].text())
         if subst and txt in subst and depth < 3:
             s = subst[txt]
             if s is not None:
@@ -119,6 +126,13 @@ def single_defs(F):
             l = lin(rhs[t])
             if l is not None and t not in l.t:
                 out[t] = l
+    # second pass: definitions written in terms of other once-assigned locals / aliases (n_a = nsip[a]; nsip = msa->nsip)
+    for _ in range(2):
+        nxt = {}
+        for t in out:
+            l = lin(rhs[t], {k: v for k, v in out.items() if k != t})
+            nxt[t] = l if l is not None and t not in l.t else out[t]
+        out = nxt
     return out
 
 
